@@ -196,7 +196,9 @@ class PassInv(LoopInv):
         return it.inner if isinstance(it, Opaque) else it
 
     def trips(self, I, it):
-        return to_z3(self.forecast(it).fields['n_cat'])
+        fo = self.forecast(it)
+        gj = getattr(fo, 'generator_length', None)       # a forecast streamed from a generator of J catalogs (ghost length)
+        return to_z3(gj) if gj is not None else to_z3(fo.fields['n_cat'])
 
     def pass_key(self, fo, i):
         src = getattr(fo, 'source_order', None) or (lambda k: SRC(k))     # a re-ordered forecast holds SRC(sigma(k)) at place k
@@ -210,16 +212,38 @@ class PassInv(LoopInv):
         return cat
 
     def at_exit(self, I, fr, it):
+        """the state a complete pass leaves behind - exactly what the exit obligations of the pass-induction lemmas establish"""
         fo = self.forecast(it)
-        J = to_z3(fo.fields['n_cat'])
+        gj = getattr(fo, 'generator_length', None)
+        J = to_z3(gj) if gj is not None else to_z3(fo.fields['n_cat'])
+        # (the pass keys are fixed before the switch below changes apply_filters)
+        pk = (lambda fo_=fo, flt=fo.fields['apply_filters'], src=getattr(fo, 'source_order', None) or (lambda k: SRC(k)):
+              (lambda k: FILT(src(to_z3(k))) if flt is True else src(to_z3(k))))()
         fo.fields['_idx'] = 0
-        fo.fields['_event_counts'] = SymList(J, lambda k: EC(self.pass_key(fo, k)), '_event_counts')
+        fo.fields['_event_counts'] = SymList(J, lambda k: EC(pk(k)), '_event_counts')
+        if gj is not None:
+            fo.fields['n_cat'] = J
+            if fo.fields.get('store'):
+                # the cached (already filtered) catalogs become the collection, filters are switched off, the cache is handed over
+                fo.fields['catalogs'] = SymList(J, lambda k: mk_cat(pk(k)), 'catalogs (cached)')
+                fo.fields['apply_filters'] = False
+                fo.fields.pop('_catalogs', None)
+                fo.source_order = (lambda k, pk=pk: pk(k))
+            else:
+                fo.fields['catalogs'] = Opaque('generator', no_len=True, fresh=True)
+            fo.generator_length = None if fo.fields.get('store') else gj
 
     def inv(self, I, fr, i, it):
         if self.mode == 'prove' and simp(to_z3(i) == 0) is True:
             fo = self.forecast(it)
             yield 'a pass starts with the cursor at 0', to_z3(fo.fields['_idx']) == 0
-            yield 'list-backed forecast that knows its length', z3.BoolVal(isinstance(fo.fields.get('catalogs'), SymList)) 
+            if getattr(fo, 'generator_length', None) is not None:
+                cats, st = fo.fields.get('catalogs'), fo.fields.get('_catalogs')
+                yield 'streamed forecast at the start of a pass: an unread generator, an empty cache', z3.BoolVal(
+                    isinstance(cats, Opaque) and cats.name == 'generator' and (not fo.fields.get('store') or (isinstance(st, (list, SymList)) and
+                                                                                                          (len(st) == 0 if isinstance(st, list) else simp(to_z3(st.n) == 0) is True))))
+            else:
+                yield 'list-backed forecast that knows its length', z3.BoolVal(isinstance(fo.fields.get('catalogs'), SymList))
 
 
 def _list_forecast(c, apply_filters, **extra):
@@ -233,6 +257,53 @@ def _list_forecast(c, apply_filters, **extra):
                   catalogs=catalog_list(J), expected_rates=None, start_time=None, end_time=None)
     fields.update(extra)
     return c.obj(CF, **fields), J, nE
+
+
+def _generator_forecast(c, apply_filters, store, **extra):
+    """a forecast streamed from a generator of J catalogs (J is ghost: the object does not know it), at the start of its first pass"""
+    J = c.int('J')
+    c.ctx.assume(J >= 1)
+    fields = dict(_idx=0, n_cat=None, _event_counts=[], apply_filters=apply_filters, filters=['magnitude >= 4.0'], apply_mct=False,
+                  filter_spatial=False, store=store, name='fc', event=None, catalog_format='native', filename='f.csv',
+                  catalogs=Opaque('generator', no_len=True), _catalogs=[], expected_rates=None, start_time=None, end_time=None,
+                  loader=Opaque('loader'))
+    fields.update(extra)
+    fo = c.obj(CF, **fields)
+    fo.generator_length = J
+    return fo, J
+
+
+def event_counts_generator_case(apply_filters, store):
+    class GECG:
+        qualname = CF + '.get_event_counts'
+        case = 'streamed from a generator (first pass), apply_filters=%s, store=%s' % (apply_filters, store)
+        properties = ('C13',)
+        loops = {0: PassInv()}
+
+        def params(c):
+            fo, J = _generator_forecast(c, apply_filters, store)
+            return dict(self=fo, verbose=False, _J=J)
+
+        def ensures(c, r, self, verbose, _J):
+            key = (lambda k: FILT(SRC(k))) if apply_filters else (lambda k: SRC(k))
+            yield 'one count per catalog of a single pass', z3.BoolVal(isinstance(r, Arr))
+            if isinstance(r, Arr):
+                yield 'length == number of catalogs the generator holds', to_z3(r.shape[0]) == _J
+                k = c.ctx.fresh_int('k!sk')
+                yield 'count k is the event count of catalog k with the configured filters applied', z3.Implies(
+                    z3.And(0 <= k, k < _J), to_z3(r.f((k,))) == EC(key(k)))
+            f = self.fields
+            yield 'the forecast is left ready for the next pass: cursor 0, number of catalogs known', z3.And(
+                to_z3(f['_idx']) == 0, to_z3(f['n_cat']) == _J)
+            if store:
+                cats = f.get('catalogs')
+                yield 'store=True: the next pass runs over the cached catalogs with the filters switched off (applied exactly once)', z3.BoolVal(
+                    isinstance(cats, SymList) and f.get('apply_filters') is False)
+            else:
+                yield 'store=False: the next pass re-reads the file with the filter switch as configured', z3.BoolVal(
+                    isinstance(f.get('catalogs'), Opaque) and f.get('apply_filters') is apply_filters)
+    GECG.__name__ = 'GEC_generator_%s_%s' % (apply_filters, store)
+    return GECG
 
 
 def event_counts_case(apply_filters, have_counts):
@@ -305,10 +376,11 @@ class RatesLoop(PassInv):
         I.used_lemmas.add('L0.count_unfold')
 
 
-def expected_rates_case(apply_filters):
+def expected_rates_case(apply_filters, generator=None):
     class GER:
         qualname = CF + '.get_expected_rates'
-        case = 'list-backed, apply_filters=%s, first request' % apply_filters
+        case = ('list-backed, apply_filters=%s, first request' % apply_filters) if generator is None else \
+            ('streamed from a generator (first pass), apply_filters=%s, store=%s, first request' % (apply_filters, generator))
         properties = ('C13', 'C10')
         loops = {0: RatesLoop()}
 
@@ -319,7 +391,10 @@ def expected_rates_case(apply_filters):
             mags = c.arr('magnitudes', 'float64', n=n1)
             region = c.obj('csep.core.regions.CartesianGrid2D', magnitudes=mags, name='region')
             region.abstract = False
-            fo, J, nE = _list_forecast(c, apply_filters, region=region)
+            if generator is None:
+                fo, J, nE = _list_forecast(c, apply_filters, region=region)
+            else:
+                fo, J = _generator_forecast(c, apply_filters, generator, region=region)
             return dict(self=fo, verbose=False, _J=J, _shape=(n0, n1))
 
         def ensures(c, r, self, verbose, _J, _shape):
@@ -338,7 +413,7 @@ def expected_rates_case(apply_filters):
 
         def raises(c, exc, self, verbose, _J, _shape):
             return None
-    GER.__name__ = 'GER_%s' % apply_filters
+    GER.__name__ = 'GER_%s_%s' % (apply_filters, generator)
     return GER
 
 
@@ -362,6 +437,8 @@ class GetExpectedRatesCached:
 
 for _af in (False, True):
     REG.add(expected_rates_case(_af))
+    for _st in (True, False):
+        REG.add(expected_rates_case(_af, _st))
     for _hc in (False, True):
         REG.add(event_counts_case(_af, _hc))
 
@@ -504,3 +581,4 @@ def pass_induction_generator_case(apply_filters, store):
 
 for _af, _st in ((False, True), (True, True), (True, False), (False, False)):
     REG.add(pass_induction_generator_case(_af, _st))
+    REG.add(event_counts_generator_case(_af, _st))
